@@ -19,3 +19,4 @@ pub mod h_c09;
 pub mod h_ser;
 pub mod h_vm;
 pub mod h_print;
+pub mod h_compile;
